@@ -24,32 +24,70 @@ CORNER = [
 ]
 
 
+CONFIGS = ['big', 'u8', 'i16', 'u32', 'p8', 'p9', 'idx', 'keep', 'pool', 'stat']
+TRACKED = ('big', 'idx')
+# measured facts every run must report for a configuration (row bytes, pool blocks per buffer, keepRowNumber); None = not pinned
+EXPECT_CFG = {'big': (None, 32, 0), 'u8': (1, 32, 0), 'i16': (2, 32, 0), 'u32': (4, 32, 0), 'p8': (8, 32, 0), 'p9': (9, 32, 0),
+              'idx': (None, 32, 0), 'keep': (9, 32, 1), 'pool': (2, 2, 0), 'stat': (1, 32, 0)}
+CORNER_X = [   # the operations added by the coverage audit
+    'n n w0,1 n', 'n n n w2,0 w0,1 n n', 'n n y0,1 d0 d0 n', 'n m0 w0,0 d0', 'n n m0 y0,1 m1 w1,0 n',
+    'n d0 v n d0 v c', 'n a0 n v x0 d0 v d0 n', 'n n a0 p0,0 n', 'n a0 n a0 n p1,0 x0 d0 n n', 'n n a0 i0,0 z0 z0 d0 d0 n',
+    'n q0 q0 d0 d0 n', 'e', 'n d0 e n', 'n n d0 d0 e e n', 'n s0 n s1 a0 a0 d0 n', 'n s0 n s1 a0 p0,0 i0,0 d0 n', 'n n n s0 s1 s2 a0 a0 i0,0 x0 a0 a0 d0 d0 n',
+    'n n n a0 a0 a0 z0 z1 x0 d2 d0 d0 n',
+]
+
+
+def gen_ops(r, n, mode):
+    ops = []
+    for j in range(n):
+        x = r.below(100)
+        if mode == 1:
+            w = 'n' if (j < n // 2 and x < 80) else ('d%d' % r.below(8) if x < 70 else 'n')
+        elif mode == 2:
+            w = ['n', 'd%d' % r.below(3)][j % 2] if x < 85 else 'n'
+        elif mode == 3:
+            w = ('n' if x < 22 else 'a%d' % r.below(4) if x < 40 else 'i%d,%d' % (r.below(5), r.below(4)) if x < 46 else 'p%d,%d' % (r.below(5), r.below(4)) if x < 54
+                 else 'x%d' % r.below(6) if x < 64 else 'z%d' % r.below(6) if x < 72 else 'r%d' % r.below(6) if x < 79 else 's%d' % r.below(4) if x < 84
+                 else 'd%d' % r.below(4) if x < 95 else 'c')
+        elif mode == 4:
+            w = 'n' if j < n // 2 else ('d%d' % r.below(16) if x < 90 else 'n')
+        elif mode == 5:      # row-object traffic: move / move-assign / swap / copy / table move
+            w = ('n' if x < 25 else 'w%d,%d' % (r.below(5), r.below(5)) if x < 40 else 'y%d,%d' % (r.below(5), r.below(5)) if x < 50 else 'm%d' % r.below(5) if x < 58
+                 else 'q%d' % r.below(4) if x < 64 else 'v' if x < 70 else 'e' if x < 75 else 'd%d' % r.below(5) if x < 92 else 'a%d' % r.below(3) if x < 96 else 'x0')
+        else:
+            w = ('n' if x < 30 else 'd%d' % r.below(6) if x < 56 else 'a%d' % r.below(4) if x < 64 else 'x%d' % r.below(5) if x < 71 else 'z%d' % r.below(5) if x < 75
+                 else 'm%d' % r.below(4) if x < 78 else 's%d' % r.below(4) if x < 82 else 'r%d' % r.below(5) if x < 86 else 'w%d,%d' % (r.below(4), r.below(4)) if x < 90
+                 else 'y%d,%d' % (r.below(4), r.below(4)) if x < 92 else 'p%d,%d' % (r.below(4), r.below(4)) if x < 94 else 'e' if x < 95 else 'v' if x < 96
+                 else 'q%d' % r.below(3) if x < 97 else 'c')
+        ops.append(w)
+    return ops
+
+
+def long_schedule(r, total):
+    """enough rows alive / listed at once to cross MemPool buffer boundaries (32 blocks per buffer) more than twice, free lists of
+    0, 1, 31, 32, 33, 64+ entries at a drain"""
+    ops = ['n'] * total
+    for chunk in (1, 31, 32, 33, total - 97):
+        ops += ['d%d' % r.below(7) for _ in range(max(chunk, 0))] + ['n']
+    ops += ['n'] * 40 + ['a0'] * 20 + ['d0'] * 20 + ['c'] + ['n'] * 3
+    return ops
+
+
 def gen_scripts(ctx, scale):
     r = ctx.rng
-    cases = ['seq ' + c for c in CORNER]
-    for i in range(260 * scale):
+    cases = ['seq:big ' + c for c in CORNER + CORNER_X]
+    for cfg in CONFIGS[1:]:
+        cases += ['seq:%s %s' % (cfg, c) for c in (CORNER + CORNER_X)[::1 if cfg == 'idx' else 2 if cfg in ('u8', 'stat', 'pool') else 3]]
+    for i in range(330 * scale):
         n = r.range(4, 60 if r.chance(1, 6) else 30)
-        mode = r.below(5)      # 0 mixed, 1 create-heavy then destroy-heavy, 2 ping-pong destroy/new, 3 table-heavy, 4 long free lists
-        ops = []
-        for j in range(n):
-            x = r.below(100)
-            if mode == 1:
-                w = 'n' if (j < n // 2 and x < 80) else ('d%d' % r.below(8) if x < 70 else 'n')
-            elif mode == 2:
-                w = ['n', 'd%d' % r.below(3)][j % 2] if x < 85 else 'n'
-            elif mode == 3:
-                w = ('n' if x < 25 else 'a%d' % r.below(4) if x < 50 else 'x%d' % r.below(6) if x < 70 else 'r%d' % r.below(6) if x < 80
-                     else 'd%d' % r.below(4) if x < 95 else 'c')
-            elif mode == 4:
-                w = 'n' if j < n // 2 else ('d%d' % r.below(16) if x < 90 else 'n')
-            else:
-                w = ('n' if x < 32 else 'd%d' % r.below(6) if x < 62 else 'a%d' % r.below(4) if x < 72 else 'x%d' % r.below(5) if x < 82
-                     else 'm%d' % r.below(4) if x < 86 else 's%d' % r.below(4) if x < 91 else 'r%d' % r.below(5) if x < 96 else 'c')
-            ops.append(w)
-        cases.append('seq ' + ' '.join(ops))
-    # the same corner schedules and a few random ones on a table with one-byte rows
-    cases += ['seqt ' + c for c in CORNER]
-    cases += ['seqt' + c[3:] for c in cases[len(CORNER):len(CORNER) + 40 * scale]]
+        cfg = CONFIGS[i % len(CONFIGS)] if i % 3 else 'big'
+        ops = gen_ops(r, n, 3 if cfg == 'idx' else r.below(6))
+        if cfg == 'idx':      # rewritten rows share one id: make refusals by the unique index (TryAdd/TryInsert/TryUpdate -> row stays detached) frequent
+            ops = [w2 for w in ops for w2 in ([w, 's%d' % r.below(3)] if w == 'n' and r.chance(1, 2) else [w])]
+        cases.append('seq:%s %s' % (cfg, ' '.join(ops)))
+    for cfg in ('big', 'u8', 'pool', 'stat', 'keep', 'idx')[:3 if scale == 1 else 6]:
+        cases.append('seq:%s %s' % (cfg, ' '.join(long_schedule(r, 100 + r.below(40)))))
+    cases.append('cross')
     return cases
 
 
@@ -95,6 +133,7 @@ def oracle_seq2(case, out):
         m = TOK2.match(t)
         if not m: return 'unparsable event %r' % t, False
         ev, arg, fl, pc = m.group(1), m.group(2), m.group(3), int(m.group(4))
+        bump('seq2:' + (ev + arg if ev == 'K' else ev + ':' + arg.split(':')[1] if ev == 'G' else ev))
         if 'CYCLE' in fl: return 'free list is cyclic after %s' % t, False
         fls = [int(x) for x in fl.split(',')] if fl else []
         if len(set(fls)) != len(fls): return 'free list contains a buffer twice after %s' % t, False
@@ -102,7 +141,7 @@ def oracle_seq2(case, out):
             r = int(arg)
             if r in det or r in tab or r in hand.values() or r in fls: return 'NewRow returned buffer %d which is alive / in a destructor / listed' % r, False
             det.add(r); chain = []
-            if last_k == '0' and prev_fl: misses += 1
+            if last_k == '0' and prev_fl: misses += 1; bump('seq2:racy-miss (alloc without drain while a row is listed)')
         elif ev == 'A': det.discard(int(arg)); tab.add(int(arg))
         elif ev == 'T': tab.discard(int(arg)); det.add(int(arg))
         elif ev == 'R': tab.discard(int(arg))
@@ -128,7 +167,7 @@ def oracle_seq2(case, out):
         elif ev == 'X':
             chain = prev_fl
             if fls: return 'the exchange did not take the whole list', False
-            if hand: mid += 1
+            if hand: mid += 1; bump('seq2:exchange-with-destructor-in-flight')
         elif ev == 'C':
             tab.clear(); chain = []
         if pc != len(det) + len(tab) + len(hand) + len(fls) + len(chain):
@@ -141,21 +180,37 @@ def oracle_seq2(case, out):
 def gen_stress(ctx, scale):
     r = ctx.rng
     cases = []
-    for i in range(4 * scale):
-        cases.append('stress %d %d %d' % (r.range(2, 3 if i % 2 == 0 else 8), 400 * (1 + r.below(4)), r.below(10 ** 9)))
-    cases.append('stress 1 300 7')
-    cases.append('stress 16 600 11')
+    cfgs = ['big', 'u8', 'idx', 'stat', 'pool', 'keep', 'i16', 'p9']
+    for i in range(6 * scale):
+        cases.append('stress %d %d %d %s' % (r.range(2, 3 if i % 2 == 0 else 8), 400 * (1 + r.below(4)), r.below(10 ** 9), cfgs[i % len(cfgs)]))
+    cases.append('stress 1 300 7 big')
+    cases.append('stress 16 600 11 u8')
     return cases
 
 
 TOK = re.compile(r'^([A-Z\-])([\d,]*)\|fl=([\w,]*)\|pc=(\d+)\|lv=(-?\d+)$')
+STATS = {}
+
+
+def bump(key, n=1):
+    STATS[key] = STATS.get(key, 0) + n
+
+
+def cfg_of(case):
+    w = case.split()[0]
+    return 'big' if w == 'seq' else 'u8' if w == 'seqt' else w[4:] if w.startswith('seq:') else w
 
 
 def oracle_seq(case, out):
     """the property itself on the real code's observations (independent of the Coq model).  returns (why|None, nontrivial)"""
+    if case.split()[0] == 'cross':
+        bump('cross')
+        ok = out.strip() == 'cross A=3/0 B=2/0 pcA=0 pcB=0 mm=0 lv=0'
+        return (None if ok else 'rows swapped / move-assigned across two tables did not return to their own table: %r' % out), ok
     toks = out.split()
     if not toks or not toks[-1].startswith('end|'):
         return 'no end marker (harness output truncated): %r' % out[-120:], False
+    cfg = cfg_of(case); bump('cfg:' + cfg); maxpc = 0
     det, tab, pend = set(), set(), set()      # detached, in table, destroyed-but-not-yet-reclaimed buffers
     seen = set(); reused = False; bigdrain = False
     for t in toks[:-1]:
@@ -164,6 +219,7 @@ def oracle_seq(case, out):
             return 'unparsable event %r' % t, False
         ev, arg, fl, pc, lv = m.group(1), m.group(2), m.group(3), int(m.group(4)), int(m.group(5))
         ids = [int(x) for x in arg.split(',')] if arg else []
+        bump('ev:' + ev); maxpc = max(maxpc, pc)
         if 'CYCLE' in fl:
             return 'free list is cyclic after %s' % t, False
         fls = [int(x) for x in fl.split(',')] if fl else []
@@ -191,27 +247,40 @@ def oracle_seq(case, out):
             return 'free list contains a buffer that was not disposed (or was already reclaimed): %s after %s' % (fl, t), False
         gone = pend - set(fls)
         if len(gone) >= 2: bigdrain = True
+        if gone: bump('drain:%s' % ('1' if len(gone) == 1 else '2-15' if len(gone) < 16 else '16-31' if len(gone) < 32 else '32' if len(gone) == 32 else '33+'))
+        if ev == 'N' and not gone: bump('newrow-without-drain')
+        if ev == 'Z' and fls: return 'a failed NewRow left the free list undrained / pushed something: %s' % t, False
         pend = set(fls)
         if ev in ('D', 'E') and fls[:len(ids)] != list(reversed(ids)):
             return 'a destroyed row is not at the head of the free list after %s' % t, False
         if pc != len(det) + len(tab) + len(fls):
             return 'pool holds %d buffers but %d are alive and %d on the free list after %s (reclaimed %s)' % (
                 pc, len(det) + len(tab), len(fls), t, 'twice or while alive' if pc < len(det) + len(tab) + len(fls) else 'never'), False
-        if lv != (0 if case.startswith('seqt') else len(det) + len(tab)):
+        if lv != (len(det) + len(tab) if cfg in TRACKED else 0):
             return 'item destructor count off: %d items alive for %d rows after %s' % (lv, len(det) + len(tab), t), False
     end = dict(kv.split('=') for kv in toks[-1].split('|')[1:])
     if end.get('mm') != '0' or end.get('ad') != '0' or end.get('lv') != '0':
         return 'outstanding memory / items at table destruction: %s' % toks[-1], False
     if det or tab or pend:
         return 'rows outstanding at the end: %s' % toks[-1], False
+    exp = EXPECT_CFG.get(end.get('cfg'))
+    if exp is None or end.get('cfg') != cfg:
+        return 'harness ran configuration %r for case configuration %r' % (end.get('cfg'), cfg), False
+    if (exp[0] is not None and int(end['row']) != exp[0]) or int(end['bc']) != exp[1] or int(end['keep']) != exp[2]:
+        return 'configuration %s is not the intended one: %s' % (cfg, toks[-1]), False
+    if int(end['block']) < 8:
+        return 'pool block (%s bytes) cannot hold the link word' % end['block'], False
+    bump('maxpc:%s' % ('<=32' if maxpc <= 32 else '33-64' if maxpc <= 64 else '65+'))
+    if reused: bump('schedules-with-reuse')
     return None, (reused and bigdrain)
 
 
 def oracle_stress(out):
-    m = re.match(r'stress k=(\d+) created=(\d+) handed=(\d+) destroyed=(\d+) drains=(\d+) pc=(\d+) mm=(-?\d+) ad=(-?\d+) lv=(-?\d+)$', out.strip())
+    m = re.match(r'stress k=(\d+) created=(\d+) handed=(\d+) destroyed=(\d+) drains=(\d+) pc=(\d+) mm=(-?\d+) ad=(-?\d+) lv=(-?\d+) cfg=(\w+) assigned=(\d+)$', out.strip())
     if not m:
         return 'unparsable stress result %r' % out[-200:], False
-    k, created, handed, destroyed, drains, pc, mm, ad, lv = map(int, m.groups())
+    k, created, handed, destroyed, drains, pc, mm, ad, lv = map(int, m.groups()[:9])
+    bump('stress:cfg:' + m.group(10)); bump('stress:k=%d' % k); bump('stress:drains', drains); bump('stress:rows', handed); bump('stress:row-assignments', int(m.group(11)))
     if handed != destroyed: return 'handed %d rows to disposers, %d destroyed' % (handed, destroyed), False
     if pc != 0: return 'pool still holds %d buffers after Clear with no row alive (lost or never reclaimed)' % pc, False
     if mm != 0 or ad != 0: return 'memory outstanding at table destruction: %d bytes, %d blocks' % (mm, ad), False
@@ -225,7 +294,7 @@ def model_trace(impl_line):
     for t in impl_line.split():
         if t.startswith('end|'): break
         evs.append(t.split('|')[0])
-    return 'seq ' + ' '.join(evs)        # the machine does not care how long a row is
+    return 'seq ' + ' '.join(evs)        # the machine does not care how long a row is / which table configuration
 
 
 def strip_lv(impl_line):
@@ -343,21 +412,23 @@ def run(ctx):
 
     # ---- tie (b): the extracted machine replays the observed event traces
     if have_model and rc == 0 and len(lines) == len(cases):
-        traces = [model_trace(l) for l in lines]
+        seqs = [(c, l) for c, l in zip(cases, lines) if c.split()[0] != 'cross']
+        tcases = [c for c, _ in seqs]; tlines = [l for _, l in seqs]
+        traces = [model_trace(l) for l in tlines]
         tpath = os.path.join(ctx.build, 'trace.cases'); open(tpath, 'w').write('\n'.join(traces) + '\n')
         rc2, mlines, err2 = ctx.run_lines([ctx.model_exe], tpath)
         mism = []
-        for c, il, ml in zip(cases, lines, mlines + ['<missing>'] * (len(lines) - len(mlines))):
+        for c, il, ml in zip(tcases, tlines, mlines + ['<missing>'] * (len(tlines) - len(mlines))):
             mtoks = ml.split()
             mbody = ' '.join(mtoks[:-1]); mend = mtoks[-1] if mtoks else ''
             if strip_lv(il) != mbody or not re.match(r'end\|disp=(\d+)\|recl=\1\|q=1$', mend):
                 mism.append((c, il, ml))
-        ctx.evaluations += len(cases); ctx.traces_validated += len(cases) - len(mism)
+        ctx.evaluations += len(tcases); ctx.traces_validated += len(tcases) - len(mism)
         ok = rc2 == 0 and not mism
         ctx.stage('corr:trace-replay', ok, ('model driver exit %d %s\n' % (rc2, err2[-300:]) if rc2 else '') +
                   ('first disagreement: case %r\nimpl : %s\nmodel: %s (%d total)' % (mism[0][0], mism[0][1][:700], mism[0][2][:700], len(mism)) if mism else ''))
         ctx.tie_obligations.append({'name': 'extracted machine replays %d observed event traces: same free list after every event, same outstanding '
-                                            'buffer count, every label enabled, quiescent with disposed == reclaimed at the end' % len(cases), 'ok': ok})
+                                            'buffer count, every label enabled, quiescent with disposed == reclaimed at the end (10 table configurations)' % len(tcases), 'ok': ok})
         mism.sort(key=lambda m: len(m[0]))
         for (c, il, ml) in mism[:2]:
             if not bad:
@@ -428,12 +499,17 @@ def run(ctx):
                             'cmd': 'echo "%s" | build/C19/harness%s' % (c, '_tsan' if san == 'thread' else '.san' if san else '')}, found_input=True)
     for c in cases[:2] + cases[len(CORNER)::max(1, len(cases) // 4)][:3] + sc[:1]:
         ctx.add_sample(c)
-    hist = {}
-    for c in cases:
-        for w in c.split()[1:]:
-            hist[w[0]] = hist.get(w[0], 0) + 1
-    ctx.coverage['input_distribution'] = {'schedules': len(cases), 'ops': hist, 'stress_runs': len(sc) * (3 if asan else 2),
-                                          'sanitizers': ['thread'] + (['address', 'undefined'] if asan else [])}
+    dist = {'schedules': len(cases)}
+    for key in sorted(STATS):
+        grp, _, name = key.partition(':')
+        if grp in ('cfg', 'ev', 'drain', 'maxpc', 'seq2', 'stress'):
+            dist.setdefault({'cfg': 'single_thread_schedules_per_configuration', 'ev': 'observed_events', 'drain': 'drains_by_number_of_buffers_reclaimed',
+                             'maxpc': 'schedules_by_peak_pool_allocate_count(32_blocks_per_buffer)', 'seq2': 'barrier_harness_events',
+                             'stress': 'stress'}[grp], {})[name] = STATS[key]
+        else:
+            dist[key] = STATS[key]
+    dist['sanitizers'] = ['thread'] + (['address', 'undefined'] if asan else [])
+    ctx.coverage['input_distribution'] = dist
     return ctx.finish(rule=RULE)
 
 
